@@ -35,6 +35,8 @@ pub struct World {
     pub has_path_rewrite: bool,
     pub input_kinds: Vec<&'static str>,
     pub system_csv: String,
+    pub system_bin: Vec<u8>,
+    pub user_bins: Vec<Vec<u8>>,
 }
 
 pub fn unk_def(rng: &mut Rng, n: usize) -> String {
@@ -155,8 +157,8 @@ pub fn gen_world(rng: &mut Rng, tag: &str, o: &WorldOpts) -> Result<World, Strin
         }
     }
     desc.push(format!("users:{}", nusers));
-    let dic = load(&cfg, system, user_bins)?;
-    Ok(World { wd, lex, matrix, users, user_pos, dic, cfg, desc, has_fallback, has_path_rewrite, input_kinds, system_csv: csv })
+    let dic = load(&cfg, system.clone(), user_bins.clone())?;
+    Ok(World { wd, lex, matrix, users, user_pos, dic, cfg, desc, has_fallback, has_path_rewrite, input_kinds, system_csv: csv, system_bin: system, user_bins })
 }
 
 /// a text over the characters of the world's words plus the general pool
